@@ -257,6 +257,7 @@ func (e *Engine) VerifyFunc(key string) (res *FuncResult) {
 		st.assume(t)
 		st.facts = append(st.facts, facts...)
 	}
+	e.flushWF(st)
 	rc.entry = st.clone()
 	rc.inputs = e.inputTerms(fn, args, &rc.entry.heap)
 	rc.modRanges = e.modRangesOf(env, spec)
@@ -366,8 +367,34 @@ func (e *Engine) lookupGlobal(qual string) *ssa.Global {
 }
 
 // assumeGlobals adds the facts about frozen / non-nil package variables to the entry state.
+// refGlobals: package variables referenced by fn or by callees that would be inlined.
+func (e *Engine) refGlobals(fn *ssa.Function, depth int, seen map[*ssa.Function]bool, out map[*ssa.Global]bool) {
+	if fn == nil || seen[fn] || depth > 7 {
+		return
+	}
+	seen[fn] = true
+	for _, b := range fn.Blocks {
+		for _, in := range b.Instrs {
+			for _, op := range in.Operands(nil) {
+				switch x := (*op).(type) {
+				case *ssa.Global:
+					out[x] = true
+				case *ssa.Function:
+					if e.Specs[FuncKey(x)] == nil {
+						e.refGlobals(x, depth+1, seen, out)
+					}
+				}
+			}
+		}
+	}
+}
+
 func (e *Engine) assumeGlobals(st *State) {
 	c := e.C
+	refs := map[*ssa.Global]bool{}
+	if e.cur != nil && e.cur.fn != nil {
+		e.refGlobals(e.cur.fn, 0, map[*ssa.Function]bool{}, refs)
+	}
 	var names []string
 	for k := range e.NonNil {
 		names = append(names, k)
@@ -398,6 +425,9 @@ func (e *Engine) assumeGlobals(st *State) {
 	for _, k := range names {
 		g := e.lookupGlobal(k)
 		if g == nil {
+			continue
+		}
+		if !refs[g] {
 			continue
 		}
 		if msg := e.frozenCheck(g); msg != "" {
